@@ -234,7 +234,7 @@ def wrapClarabel (lm : LinModel α) (out : ClarabelOutcome α) : Res α :=
 /-! ### tableau simplex: `OptimalTableau::as_lp_solution` -/
 
 def stripPrefix (p s : String) : Option String :=
-  if s.startsWith p then some (s.drop p.length).toString else none
+  if s.startsWith p then some (String.ofList (s.toList.drop p.length)) else none
 
 /-- standard-form names + values → assignment of the original variables. -/
 def asLpAssignment (names : List String) (values : List α) : List (String × Val α) :=
